@@ -933,19 +933,36 @@ func rulePPostNonEmpty(c *engine.Context) *report.Rule {
 		for _, rv := range rets {
 			r.Instances++
 			ok, how := false, ""
-			var check func(v ssa.Value, at ssa.Instruction, depth int) bool
-			check = func(v ssa.Value, at ssa.Instruction, depth int) bool {
+			// a value is judged at a program point: after the instructions of blk that precede upto
+			// (all of them when upto is nil) and, when to is set, on the edge blk -> to (the
+			// operand of a phi is judged on its own edge, not at the join)
+			condsAt := func(blk *ssa.BasicBlock, to *ssa.BasicBlock) []edgeCond {
+				out := dominatingConds(blk)
+				if to != nil {
+					if ifi, ok := blk.Instrs[len(blk.Instrs)-1].(*ssa.If); ok && blk.Succs[0] != blk.Succs[1] {
+						out = append(out, edgeCond{cond: ifi.Cond, taken: blk.Succs[0] == to, at: ifi})
+					}
+				}
+				return out
+			}
+			var check func(v ssa.Value, blk *ssa.BasicBlock, upto ssa.Instruction, to *ssa.BasicBlock, depth int) bool
+			check = func(v ssa.Value, blk *ssa.BasicBlock, upto ssa.Instruction, to *ssa.BasicBlock, depth int) bool {
 				if depth > 4 {
 					return false
 				}
-				// proven non-nil by a dominating comparison
-				for _, dc := range dominatingConds(at.Block()) {
-					if bo, ok := dc.cond.(*ssa.BinOp); ok && isNilConstV(bo.Y) && bo.X == v {
-						if (bo.Op == token.NEQ) == dc.taken {
-							how = "variable proven non-nil"
-							return true
+				provenNonNil := func() bool {
+					for _, dc := range condsAt(blk, to) {
+						if bo, ok := dc.cond.(*ssa.BinOp); ok && isNilConstV(bo.Y) && (bo.X == v || sameLocalLoad(bo.X, v)) {
+							if (bo.Op == token.NEQ) == dc.taken {
+								how = "variable proven non-nil"
+								return true
+							}
 						}
 					}
+					return false
+				}
+				if provenNonNil() {
+					return true
 				}
 				switch x := v.(type) {
 				case *ssa.MakeInterface:
@@ -975,10 +992,9 @@ func rulePPostNonEmpty(c *engine.Context) *report.Rule {
 				case *ssa.Const:
 					if x.IsNil() {
 						// sink must be known non-empty here
-						b := at.Block()
-						v2 := in[b]
-						for _, ins := range b.Instrs {
-							if ins == at {
+						v2 := in[blk]
+						for _, ins := range blk.Instrs {
+							if upto != nil && ins == upto {
 								break
 							}
 							if call, isCall := ins.(*ssa.Call); isCall {
@@ -999,29 +1015,23 @@ func rulePPostNonEmpty(c *engine.Context) *report.Rule {
 								v2 = false
 							}
 						}
+						if to != nil && edgeFact(blk, to) {
+							v2 = true
+						}
 						how = "nil with the sink known non-empty"
 						return v2
 					}
 				case *ssa.Phi:
-					for _, e := range x.Edges {
-						if !check(e, at, depth+1) {
+					for i, e := range x.Edges {
+						if !check(e, x.Block().Preds[i], nil, x.Block(), depth+1) {
 							return false
 						}
 					}
 					return true
 				}
-				// proven non-nil by a dominating comparison
-				for _, dc := range dominatingConds(at.Block()) {
-					if bo, ok := dc.cond.(*ssa.BinOp); ok && isNilConstV(bo.Y) && bo.X == v {
-						if (bo.Op == token.NEQ) == dc.taken {
-							how = "variable proven non-nil"
-							return true
-						}
-					}
-				}
 				return false
 			}
-			ok = check(rv.v, rv.at, 0)
+			ok = check(rv.v, rv.at.Block(), rv.at, nil, 0)
 			r.Oblige(ok)
 			if len(r.Samples) < 10 {
 				r.Sample("%s returns %s: %s", load.FuncName(fn), describeVal(rv.v), how)
@@ -1364,4 +1374,114 @@ func rulePSentinel(c *engine.Context) *report.Rule {
 	// comparable, so comparisons against it never panic
 	r.Oblige(types.Comparable(t))
 	return r
+}
+
+// sameLocalLoad: a and b are loads of the same field (or element-free path) of the same local
+// allocation, in the same block, with no store or call between them: the same value.
+func sameLocalLoad(a, b ssa.Value) bool {
+	la, ok1 := a.(*ssa.UnOp)
+	lb, ok2 := b.(*ssa.UnOp)
+	if !ok1 || !ok2 || la.Op != token.MUL || lb.Op != token.MUL {
+		return false
+	}
+	sameAddr := func(x, y ssa.Value) bool {
+		if x == y {
+			return true
+		}
+		fx, ok1 := x.(*ssa.FieldAddr)
+		fy, ok2 := y.(*ssa.FieldAddr)
+		return ok1 && ok2 && fx.X == fy.X && fx.Field == fy.Field
+	}
+	if !sameAddr(la.X, lb.X) {
+		return false
+	}
+	// the first load must dominate the second with nothing that can write in between
+	first, second := la, lb
+	if !instrBefore(first, second) {
+		first, second = lb, la
+		if !instrBefore(first, second) {
+			return false
+		}
+	}
+	return noWriteBetween(first, second)
+}
+
+// noWriteBetween: on every path from a to b (a dominates b) no store, call or defer is executed.
+func noWriteBetween(a, b ssa.Instruction) bool {
+	isWrite := func(ins ssa.Instruction) bool {
+		switch ins.(type) {
+		case *ssa.Store, *ssa.Call, *ssa.Defer, *ssa.Go, *ssa.MapUpdate, *ssa.Send:
+			return true
+		}
+		return false
+	}
+	if a.Block() == b.Block() {
+		seenA := false
+		for _, ins := range a.Block().Instrs {
+			if ins == a {
+				seenA = true
+				continue
+			}
+			if ins == b {
+				return seenA
+			}
+			if seenA && isWrite(ins) {
+				return false
+			}
+		}
+		return false
+	}
+	// blocks that lie on a path a.Block -> b.Block: reachable from a's block and reaching b's
+	fwd := map[*ssa.BasicBlock]bool{}
+	var f func(x *ssa.BasicBlock)
+	f = func(x *ssa.BasicBlock) {
+		for _, sx := range x.Succs {
+			if sx != b.Block() && !fwd[sx] && sx != a.Block() {
+				fwd[sx] = true
+				f(sx)
+			}
+		}
+	}
+	f(a.Block())
+	bwd := map[*ssa.BasicBlock]bool{}
+	var g func(x *ssa.BasicBlock)
+	g = func(x *ssa.BasicBlock) {
+		for _, px := range x.Preds {
+			if px != a.Block() && !bwd[px] && px != b.Block() {
+				bwd[px] = true
+				g(px)
+			}
+		}
+	}
+	g(b.Block())
+	after := false
+	for _, ins := range a.Block().Instrs {
+		if ins == a {
+			after = true
+			continue
+		}
+		if after && isWrite(ins) {
+			return false
+		}
+	}
+	for _, ins := range b.Block().Instrs {
+		if ins == b {
+			break
+		}
+		if isWrite(ins) {
+			return false
+		}
+	}
+	for blk := range fwd {
+		if !bwd[blk] {
+			continue
+		}
+		for _, ins := range blk.Instrs {
+			if isWrite(ins) {
+				return false
+			}
+		}
+	}
+	// a loop through a's or b's block would re-execute them; require b's block not to reach a's
+	return true
 }
